@@ -175,12 +175,19 @@ func exceptionNew(metatype *Type, args Tuple) *Exception {
 	}
 }
 
+// typeErrorType returns TypeError without creating a package initialization cycle
+var typeErrorType = func() *Type { return nil }
+
+func init() {
+	typeErrorType = func() *Type { return TypeError }
+}
+
 // ExceptionNew
 func ExceptionNew(metatype *Type, args Tuple, kwargs StringDict) (Object, error) {
 	if len(kwargs) != 0 {
-		// FIXME this causes an initialization loop
-		// return nil, ExceptionNewf(TypeError, "%s does not take keyword arguments", metatype.Name)
-		return nil, fmt.Errorf("TypeError: %s does not take keyword arguments", metatype.Name)
+		// NB referring to TypeError directly here causes an initialization
+		// loop, so the type is looked up at run time
+		return nil, exceptionNew(typeErrorType(), Tuple{String(fmt.Sprintf("%s does not take keyword arguments", metatype.Name))})
 	}
 	return exceptionNew(metatype, args), nil
 }
